@@ -204,7 +204,10 @@ def execute_concurrent_async(
 
     # Execute concurrently
     try:
-        executor.execute(concurrency=concurrency, fail_fast=raise_on_first_error)
+        results = executor.execute(concurrency=concurrency, fail_fast=raise_on_first_error)
+        if not future.done():
+            # nothing was started (no statements): no completion ever runs, so nothing else would resolve the future
+            future.set_result(results)
     except Exception as e:
         if not future.done():
             future.set_exception(e)
